@@ -177,7 +177,7 @@ fn special_product(ctx: &Ctx, r: &mut Report) {
 }
 
 fn random_candles(ctx: &Ctx, r: &mut Report) {
-	let n = ctx.pick(30, 300);
+	let n = ctx.pick(150, 300);
 	for k in 0..n {
 		if !ctx.mine(k) {
 			continue;
